@@ -100,6 +100,23 @@ MUTS = {
                                           "        kws['trcl'] = [] if kws['trcl'] is None else [kws['trcl']]"),
     'M24_negative_universe_kept': (PC, "                keywords['u'] = abs(int(float(kw_list.pop())))",
                                    "                keywords['u'] = int(float(kw_list.pop()))"),
+    'M25_same_sign_twice_is_empty': (
+        CC, "        pluses = {surf for surf in new_node[2:]\n"
+            "                  if isSurface(surf) and surf > 0}\n"
+            "        minuses = {-surf for surf in new_node[2:]\n"
+            "                   if isSurface(surf) and surf < 0}\n"
+            "        if pluses & minuses:\n"
+            "            return None\n",
+        "        seen = set()\n"
+        "        for surf in new_node[2:]:\n"
+        "            if not isSurface(surf):\n"
+        "                continue\n"
+        "            if abs(surf) in seen:\n"
+        "                return None\n"
+        "            seen.add(abs(surf))\n"),
+    'M26_fill_without_tr_leaves_f_params_unset': (
+        PC, "                keywords['f_params'] = f_params\n",
+        "                if f_params:\n                    keywords['f_params'] = f_params\n"),
     'R1_to_process_list_loops': (
         CC, "        to_process = tuple(cell\n"
             "                           for element in dict_universe[universe]\n"
